@@ -232,9 +232,10 @@ def execute(body, d, rt, split=None):
             if via == "attr":
                 for s in sdecl:
                     states[s["id"]] = State(initial=s["initial"], final=s["final"])
-                    attrs[s["id"]] = states[s["id"]]
         for st in stmts:
             op = st["op"]
+            if op == "state" and via == "attr":
+                attrs[st["id"]] = states[st["id"]]      # class attributes keep the order of the statements
             if op in ("to", "from", "any"):
                 kw = guards_kw(st["guards"])
                 if st.get("internal"):
